@@ -178,8 +178,20 @@ def pipe_write_cases(rng, count):
         out.append(case(files, [] if unnamed else ["f0"], lines))
     return out
 
+def failed_write_cases(rng, count):
+    """a write that fails part-way (error or short count from write / close) must leave the buffer dirty:
+    the quit / edit / switch that follows is refused"""
+    out = []
+    for _ in range(count):
+        data = rng.choice(["one\n", "l1\nl2\nl3\n", "".join("%07d\n" % i for i in range(520)), "a\n" + "B" * 5000 + "\nc\n"])
+        pos = rng.below(5); kind = rng.choice(["e", "e", "e", "1", "7"])
+        fault = "@@fault %d:%s" % (pos, kind) if rng.below(4) else "@@fault %d:%s,%d:e" % (pos, rng.choice(["1", "7"]), pos + 1)
+        lines = ["1a", "edit", ".", fault, rng.choice(["w", "w", "w!", "wq", "x", "w other", "xa"]), rng.choice(["q", "q", "e other", "b", "x"]), "b", "w", "q", "q!"]
+        out.append(case([("fa", data), ("other", None)], ["fa"] if rng.below(4) else [], lines))
+    return out
+
 def buf_cases(rng, count, nfiles=3, maxcmds=14):
-    out = full_table_cases(rng, max(3, count // 150)) + epoch_cases(rng, max(4, count // 100)) + pipe_write_cases(rng, max(8, count // 60))
+    out = full_table_cases(rng, max(3, count // 150)) + epoch_cases(rng, max(4, count // 100)) + pipe_write_cases(rng, max(8, count // 60)) + failed_write_cases(rng, max(20, count // 25))
     for _ in range(count):
         k = 2 + rng.below(nfiles - 1) if nfiles > 2 else 2
         names = ["f%d" % i for i in range(k)]
@@ -339,6 +351,11 @@ def c15_cases(rng, count):
         if rng.below(5) == 0:
             lines = [rng.choice(["g//d", "g/[a/d", "v/\\(/d", "9,1g/./d", "g/m"])] * rng.choice([1, 1, 2, 7, 8]) + lines
         rg = rng.choice(["", "", "%", "2,$", "1,3", "2,4", ".,$"])
+        if rng.below(6) == 0:
+            # a global abandoned part-way (its command fails on a visited line while marked lines remain), then one over
+            # a narrower range: marks left behind must not widen it
+            lines.append(rng.choice(["%g/./.,+5d", "%g/m/+9d", "%g/./.,+3d|9d", "%g/./'zd", "g/./s/nomatchzz//", "%g/o/.,+4y a|99d"]))
+            lines.append("%s%s/%s/%s" % (rng.choice(["1", "2", "1,2", "$", "."]), rng.choice(["g", "g", "v"]), rng.choice(GLOB_PATS), rng.choice(["s/$/X/", "s/^/>/", "d", "pu a", "g/./s/$/Y/"])))
         lines.append("%s%s/%s/%s" % (rg, rng.choice(["g", "g", "v", "g!"]), rng.choice(GLOB_PATS), rng.choice(GLOB_CMDS)))
         lines += ["%p", "u", "%p", "q!"]
         out.append(case([("fa", content)], ["fa"], lines))
